@@ -465,6 +465,18 @@ def strncmp_hook(exe, st, node, args):
 
 strncmp_hook.pure = True
 
+
+def strcmp_hook(exe, st, node, args):
+    """strcmp of two string literals (macro-stringified names compared with fixed names): decided at VC-generation time."""
+    a, b = args
+    if a.obj is not None and b.obj is not None and a.obj.kind == 'string' and b.obj.kind == 'string' and _conc_idx(a.idx) == (0,) and _conc_idx(b.idx) == (0,):
+        va, vb = a.obj.meta['value'], b.obj.meta['value']
+        return exe.sem.const(0 if va == vb else (-1 if va < vb else 1), exe.ctype(node))
+    raise FrontEndError('strcmp on non-literal strings')
+
+
+strcmp_hook.pure = True
+
 def iszerobyte_hook(exe, st, node, args):
     """mju_isZeroByte(vec, n) on a byte view of a typed array of doubles / ints: 1 iff every element of the n bytes is the
     all-zero bit pattern (+0.0 for doubles).  Assumed contract of the engine utility (body: a byte loop, not verified here)."""
@@ -517,7 +529,7 @@ def _overflow_builtin(op):
     return hook
 
 
-MATH_HOOKS = {'__builtin_add_overflow': _overflow_builtin('add'), '__builtin_mul_overflow': _overflow_builtin('mul'), 'mju_isZeroByte': iszerobyte_hook, 'strncmp': strncmp_hook, 'strnlen': strnlen_hook, 'sqrt': sqrt_hook, 'sin': sin_hook, 'cos': cos_hook, 'fabs': fabs_hook, 'fmax': fmax_hook, 'fmin': fmin_hook, 'exp': exp_hook}
+MATH_HOOKS = {'strcmp': strcmp_hook, '__builtin_add_overflow': _overflow_builtin('add'), '__builtin_mul_overflow': _overflow_builtin('mul'), 'mju_isZeroByte': iszerobyte_hook, 'strncmp': strncmp_hook, 'strnlen': strnlen_hook, 'sqrt': sqrt_hook, 'sin': sin_hook, 'cos': cos_hook, 'fabs': fabs_hook, 'fmax': fmax_hook, 'fmin': fmin_hook, 'exp': exp_hook}
 
 HOOKS = {'memcpy': memcpy_hook, 'memmove': memcpy_hook, 'memset': memset_hook,
          '__builtin_memcpy': memcpy_hook, '__builtin_memset': memset_hook,
